@@ -227,6 +227,13 @@ impl RtpHeader {
                 new_data.push(id_header);
                 new_data.extend_from_slice(data);
             } else {
+                // The block may come from a received packet: an element that
+                // claims more bytes than remain is malformed, not a panic.
+                if offset + len > ext.data.len() {
+                    return Err(RtpError::InvalidHeader(
+                        "malformed one-byte header extension block",
+                    ));
+                }
                 new_data.push(b);
                 new_data.extend_from_slice(&ext.data[offset..offset + len]);
             }
